@@ -15,7 +15,7 @@ import (
 )
 
 func init() {
-	register("C08", checkC08, "Wall-clock bounds are NOT decided. Decided on Do/do of both clients: R8.1 every cycle of the read loop passes the non-blocking select on ctx.Done() and on the channel of a single time.After(readTimeout) created before the loop; its two cases return ctx.Err() and a *ClientError. R8.2 (network client) every Read is preceded in the same iteration by SetReadDeadline(now + finite constant); the loop calls nothing outside a frozen allow-list of non-blocking operations. R8.3 every error returned is *ClientError (fresh with Err set, or the ErrPacketTooLong / ErrClientNotConnected values), ctx.Err(), one of the two immediate precondition errors, or what parseResponseFunc returned; a raw transport error is a violation. R8.4 the oversize return is taken exactly when total exceeds the ADU size, which the Read window makes observable (window end > ADU size), and all buffer accesses are proven in bounds with total <= ADU size as loop invariant. R8.5 the nil-request and not-connected tests precede the first use of request and transport. The serial port has no deadline API: that a serial Read returns in finite time is assumed. R8.6 every value stored into a timeout field is proven >= 1ns where it is stored and comes from the configuration field of the same role; function fields are only overwritten with proven non-nil values; every ClientConfig timeout/function field is consumed; constructors pass the caller's configuration on. R8.7 Connect stores the connection only after its dial error was found nil. R8.8 no reply bytes can make the installed parse/recognise functions panic (C10 obligations from the installed entry points). R8.9 no return of a client method leaves the client's mutex held without a deferred unlock. R8.10 ClientError.Unwrap returns exactly the stored cause. R8.4 counts the obligations of the client's own helpers too; the unchecked Flusher assertion is discharged by a field invariant established from the constructors. R8.6 also requires guard purity: the store of a configured value is control-dependent only on conditions over that same ClientConfig field. R8.11 the reply dispatchers hand their whole input to the per-function parsers (surplus bytes stay visible to the length checks).")
+	register("C08", checkC08, "Wall-clock bounds are NOT decided. Decided on Do/do of both clients: R8.1 every cycle of the read loop passes the non-blocking select on ctx.Done() and on the channel of a single time.After(readTimeout) created before the loop; its two cases return ctx.Err() and a *ClientError. R8.2 (network client) every Read is preceded in the same iteration by SetReadDeadline(now + finite constant); the loop calls nothing outside a frozen allow-list of non-blocking operations. R8.3 every error returned is *ClientError (fresh with Err set, or the ErrPacketTooLong / ErrClientNotConnected values), ctx.Err(), one of the two immediate precondition errors, or what parseResponseFunc returned; a raw transport error is a violation. R8.4 the oversize return is taken exactly when total exceeds the ADU size, which the Read window makes observable (window end > ADU size), and all buffer accesses are proven in bounds with total <= ADU size as loop invariant. R8.5 the nil-request and not-connected tests precede the first use of request and transport. The serial port has no deadline API: that a serial Read returns in finite time is assumed. R8.6 every value stored into a timeout field is proven >= 1ns where it is stored and comes from the configuration field of the same role; function fields are only overwritten with proven non-nil values; every ClientConfig timeout/function field is consumed; constructors pass the caller's configuration on. R8.7 Connect stores the connection only after its dial error was found nil. R8.8 no reply bytes can make the installed parse/recognise functions panic (C10 obligations from the installed entry points). R8.9 no return of a client method leaves the client's mutex held without a deferred unlock. R8.10 ClientError.Unwrap returns exactly the stored cause. R8.4 counts the obligations of the client's own helpers too; the unchecked Flusher assertion is discharged by a field invariant established from the constructors. R8.6 also requires guard purity: the store of a configured value is control-dependent only on conditions over that same ClientConfig field. R8.11 the reply dispatchers hand their whole input to the per-function parsers (surplus bytes stay visible to the length checks). R8.1/R8.2 accept the poll in a loop-free non-blocking helper of the module (then the Read is reached only on the select's default case and the helper's error is returned). R8.3 also: where the cause of a *ClientError can be the result of fmt.Errorf, every operand of error type is matched by a %w verb of a constant format.")
 }
 
 func checkC08(c *Ctx, r *Report) {
